@@ -71,14 +71,19 @@ class Node:
         return self.a.leaves() + self.b.leaves()
 
 
-def build(env, expr, dep=None):
+BUILDERS = dict(SH.PRIMS)
+BUILDERS["Parallelogram"] = SH.parallelogram_d  # origin + two edge vectors: the same shapes, smaller polynomials
+BUILDERS["Triangle"] = SH.triangle_d
+
+
+def build(env, expr, dep=None, base=0):
     if expr[0] in SH.PRIMS:
         kind, tag = expr[0], expr[1]
         before = len(getattr(env, "_affs", []))
-        sh = SH.PRIMS[kind](env, tag=tag, dep=dep)
-        return Node(kind, sh, list(env._affs[before:]), tag=tag)
+        sh = BUILDERS[kind](env, tag=tag, dep=dep, **(dict(base=base) if kind == "Triangle" else {}))
+        return Node(kind, sh, getattr(sh, "corner_affs", None) or list(env._affs[before:]), tag=tag)
     op, e1, e2 = expr
-    a, b = build(env, e1, dep), build(env, e2, dep)
+    a, b = build(env, e1, dep, base), build(env, e2, dep, base)
     sh = {"+": SH.union, "-": SH.cut, "&": SH.inter}[op](a.sh, b.sh)
     return Node(op, sh, None, a, b)
 
@@ -102,6 +107,8 @@ def pieces(kind):
 
 def _aff_rows(aff, P, nrows):
     """(nrows, dim) tensor of the shape parameter, one row per parameter row"""
+    if hasattr(aff, "a") and hasattr(aff, "b"):  # shapes._Sum
+        return _aff_rows(aff.a, P, nrows) + _aff_rows(aff.b, P, nrows)
     base = aff.base.reshape(1, -1)
     if aff.var is None:
         return base * torch.ones((nrows, 1))
@@ -320,8 +327,13 @@ def generic_case(expr, leaf_idx, piece, k=0, orient=None, dep=None, premises_onl
     # claims about the other vertex orientation have a premise the case's assumption contradicts
     other = "ccw" if orient in ("neg", "cw") else "cw"
 
+    # triangles: the two edge vectors the shape is parametrised by start at the corner this case is about
+    base = 0
+    if leaf_e[0] == "Triangle" and piece.startswith("e"):
+        base = (int(piece[1:]) + (1 if zone in ("z1", "v1") else 0)) % 3
+
     def body(env):
-        node = build(env, expr, dep)
+        node = build(env, expr, dep, base)
         sh = node.sh
         P, rows = SH.params(env, sh.pvars, k)
         nrows = max(k, 1)
